@@ -54,7 +54,7 @@ static volatile int g_hlock = 0;
 static int g_hookWin = 0;      /* STREAMDRV_HOOKS=win : window events only (property C15); any other value: events of the MT compressor only */
 static void hook_cb(const char* ev, const void* ctx, long long a, long long b, long long c, long long d, long long e, long long f) {
     (void)ctx;
-    if ((ev[0] == 'w' && ev[1] == 'i' && ev[2] == 'n') != g_hookWin) return;
+    if (g_hookWin ? !(ev[0] == 'w' && ev[1] == 'i' && ev[2] == 'n') : !(ev[0] == 'm' && ev[1] == 't')) return;     /* other hook families (decoder, trainer) belong to other drivers */
     if (g_hookWin) { long long const lim = 0x7fffffffLL; if (a > lim || b > lim || c > lim || d > lim || e > lim || f > lim) { if (b > lim && ev[6] == 'M') b = lim; else ev = "winBig"; } }
     while (__atomic_exchange_n(&g_hlock, 1, __ATOMIC_ACQUIRE)) { }
     fprintf(T, "{\"e\":\"%s\",\"a\":%lld,\"b\":%lld,\"c\":%lld,\"d\":%lld,\"f\":%lld,\"g\":%lld}\n", ev, a, b, c, d, e, f);
